@@ -1,7 +1,37 @@
 """Typed expression grammar as Hypothesis strategies. Built by construction: every generated
 descriptor is inside the documented input domain (no rejection)."""
+import functools
 from hypothesis import strategies as st
 from vlib import refsem as R
+
+
+# Strategy objects are cached: constructing and validating a strategy per draw dominates the cost
+# of generating large programs otherwise.
+@functools.lru_cache(maxsize=None)
+def INT(lo, hi):
+    return st.integers(lo, hi)
+
+
+BOOL = st.booleans()
+
+
+def PICK(draw, seq):
+    seq = list(seq)
+    return seq[draw(INT(0, len(seq) - 1))]
+
+
+@functools.lru_cache(maxsize=None)
+def _value_strategy(w, s):
+    if w == 0:
+        return st.just(0)
+    if s:
+        full = st.integers(-(1 << (w - 1)), (1 << (w - 1)) - 1)
+    else:
+        full = st.integers(0, (1 << w) - 1)
+    return st.one_of(st.sampled_from(corner_values(w, s)), full)
+
+
+_SMALL_INTS = st.one_of(st.integers(-9, 9), st.sampled_from([-128, -17, 16, 31, 255]))
 
 UNARY = ["~", "neg", "abs", "bool", "any", "all", "xor", "as_s", "as_u"]
 ARITH = ["+", "-", "*", "//", "%"]
@@ -10,13 +40,17 @@ BITW = ["&", "|", "^"]
 BINARY = ARITH + CMP + BITW + ["<<", ">>"]
 
 
-@st.composite
-def shapes(draw, maxw=6, allow_zero=True):
-    s = draw(st.booleans())
+def draw_shape(draw, maxw=6, allow_zero=True):
+    s = draw(BOOL)
     lo = 1 if s else (0 if allow_zero else 1)
     # bias towards tiny widths (0, 1, 2) where corner cases live
-    w = draw(st.one_of(st.integers(lo, min(2, maxw)), st.integers(lo, maxw)))
+    w = draw(INT(lo, min(2, maxw))) if draw(BOOL) else draw(INT(lo, maxw))
     return [w, s]
+
+
+@st.composite
+def shapes(draw, maxw=6, allow_zero=True):
+    return draw_shape(draw, maxw, allow_zero)
 
 
 def corner_values(w, s):
@@ -34,21 +68,16 @@ def corner_values(w, s):
 
 
 def value_of_shape(w, s):
-    if w == 0:
-        return st.just(0)
-    if s:
-        full = st.integers(-(1 << (w - 1)), (1 << (w - 1)) - 1)
-    else:
-        full = st.integers(0, (1 << w) - 1)
-    return st.one_of(st.sampled_from(corner_values(w, s)), full)
+    return _value_strategy(w, bool(s))
 
 
 class ExprGen:
     """draw-based recursive generator; tracks shapes so constraints are met by construction."""
-    def __init__(self, env, cap=64, allow_arr=True, leaf_consts=True):
+    def __init__(self, env, cap=64, allow_arr=True, readable=None):
         self.env = env
         self.cap = cap
         self.allow_arr = allow_arr
+        self.readable = list(range(len(env))) if readable is None else list(readable)
 
     def shape(self, e):
         return R.shape_of(e, self.env)
@@ -64,7 +93,7 @@ class ExprGen:
     def unsigned(self, draw, e, maxw=None):
         w, s = self.shape(e)
         if s:
-            e = ["u", "as_u", e] if draw(st.booleans()) else ["slice", e, 0, w]
+            e = ["u", "as_u", e] if draw(BOOL) else ["slice", e, 0, w]
         if maxw is not None:
             e = self.limit(draw, e, maxw)
         return e
@@ -83,51 +112,51 @@ class ExprGen:
     def nonzero_width(self, draw, e):
         w, s = self.shape(e)
         if w == 0:
-            return ["cat", [e, ["const", draw(st.integers(0, 1)), 1, False]]]
+            return ["cat", [e, ["const", draw(INT(0, 1)), 1, False]]]
         return e
 
     # -- leaves ------------------------------------------------------------------------
     def leaf(self, draw):
         kinds = ["sig"] * 5 + ["const"] * 2 + ["int"]
-        k = draw(st.sampled_from(kinds)) if self.env else draw(st.sampled_from(["const", "int"]))
+        k = PICK(draw, (kinds)) if self.readable else PICK(draw, (["const", "int"]))
         if k == "sig":
-            return ["sig", draw(st.integers(0, len(self.env) - 1))]
+            return ["sig", PICK(draw, (self.readable))]
         if k == "const":
-            w, s = draw(shapes(maxw=6))
+            w, s = draw_shape(draw, 6)
             return ["const", draw(value_of_shape(w, s)), w, s]
-        return ["int", draw(st.one_of(st.integers(-9, 9), st.sampled_from([-128, -17, 16, 31, 255])))]
+        return ["int", draw(_SMALL_INTS)]
 
     # -- recursive ---------------------------------------------------------------------
     def expr(self, draw, depth):
-        if depth <= 0 or draw(st.integers(0, 9)) == 0:
+        if depth <= 0 or draw(INT(0, 9)) == 0:
             return self.leaf(draw)
         prods = ["u", "b", "b", "b", "shift", "rot", "idx", "slice", "sslice", "cat", "rep",
                  "bsel", "wsel", "mux", "match", "shiftv"]
         if self.allow_arr:
             prods.append("arr")
-        p = draw(st.sampled_from(prods))
+        p = PICK(draw, (prods))
         e = getattr(self, "p_" + p)(draw, depth - 1)
         w, s = self.shape(e)
         if w > self.cap:
-            e = ["slice", e, 0, self.cap] if draw(st.booleans()) else ["slice", e, w - self.cap, w]
+            e = ["slice", e, 0, self.cap] if draw(BOOL) else ["slice", e, w - self.cap, w]
         return e
 
     def p_u(self, draw, d):
-        op = draw(st.sampled_from(UNARY))
+        op = PICK(draw, (UNARY))
         a = self.expr(draw, d)
         if op == "as_s":
             a = self.nonzero_width(draw, a)
         return ["u", op, a]
 
     def p_b(self, draw, d):
-        op = draw(st.sampled_from(ARITH + CMP + BITW))
+        op = PICK(draw, (ARITH + CMP + BITW))
         a, b = self.expr(draw, d), self.expr(draw, d)
         if op == "*":
             a, b = self.limit(draw, a, self.cap // 2), self.limit(draw, b, self.cap // 2)
         return ["b", op, a, b]
 
     def p_shiftv(self, draw, d):
-        op = draw(st.sampled_from(["<<", ">>"]))
+        op = PICK(draw, (["<<", ">>"]))
         a = self.expr(draw, d)
         b = self.unsigned(draw, self.expr(draw, d), maxw=3 if op == "<<" else 5)
         if op == "<<":
@@ -136,22 +165,23 @@ class ExprGen:
 
     def p_shift(self, draw, d):
         a = self.expr(draw, d)
-        return [draw(st.sampled_from(["shl", "shr"])), a, draw(st.integers(-6, 9))]
+        return [PICK(draw, (["shl", "shr"])), a, draw(INT(-6, 9))]
 
     def p_rot(self, draw, d):
         a = self.expr(draw, d)
-        return [draw(st.sampled_from(["rol", "ror"])), a, draw(st.integers(-20, 20))]
+        return [PICK(draw, (["rol", "ror"])), a, draw(INT(-20, 20))]
 
     def p_idx(self, draw, d):
         a = self.nonzero_width(draw, self.expr(draw, d))
         w, _ = self.shape(a)
-        return ["idx", a, draw(st.integers(-w, w - 1))]
+        return ["idx", a, draw(INT(-w, w - 1))]
 
     def p_slice(self, draw, d):
         a = self.expr(draw, d)
         w, _ = self.shape(a)
-        bound = st.one_of(st.none(), st.integers(-w - 3, w + 3))
-        start, stop = draw(bound), draw(bound)
+        def bound():
+            return None if draw(INT(0, 5)) == 0 else draw(INT(-w - 3, w + 3))
+        start, stop = bound(), bound()
         i, j, _ = slice(start, stop).indices(w)
         if i > j:
             start, stop = stop, start
@@ -163,24 +193,25 @@ class ExprGen:
     def p_sslice(self, draw, d):
         a = self.expr(draw, d)
         w, _ = self.shape(a)
-        bound = st.one_of(st.none(), st.integers(-w - 2, w + 2))
-        step = draw(st.sampled_from([2, 3, -1, -2, -3]))
-        return ["sslice", a, draw(bound), draw(bound), step]
+        def bound():
+            return None if draw(INT(0, 3)) == 0 else draw(INT(-w - 2, w + 2))
+        step = PICK(draw, ([2, 3, -1, -2, -3]))
+        return ["sslice", a, bound(), bound(), step]
 
     def p_cat(self, draw, d):
-        n = draw(st.integers(0, 3))
+        n = draw(INT(0, 3))
         return ["cat", [self.expr(draw, d) for _ in range(n)]]
 
     def p_rep(self, draw, d):
         a = self.limit(draw, self.expr(draw, d), 16)
-        return ["rep", a, draw(st.integers(0, 3))]
+        return ["rep", a, draw(INT(0, 3))]
 
     def p_bsel(self, draw, d):
         a = self.expr(draw, d)
         wa, _ = self.shape(a)
-        width = draw(st.integers(0, 6))
-        if draw(st.integers(0, 5)) == 0 and wa >= width:
-            off = ["int", draw(st.integers(0, wa - width))]      # constant offset, fully inside
+        width = draw(INT(0, 6))
+        if draw(INT(0, 5)) == 0 and wa >= width:
+            off = ["int", draw(INT(0, wa - width))]      # constant offset, fully inside
         else:
             off = self.var_offset(draw, self.expr(draw, d), 4)
         return ["bsel", a, off, width]
@@ -188,10 +219,10 @@ class ExprGen:
     def p_wsel(self, draw, d):
         a = self.expr(draw, d)
         wa, _ = self.shape(a)
-        width = draw(st.integers(0, 5))
-        if width == 0 or (draw(st.integers(0, 5)) == 0 and wa >= width):
+        width = draw(INT(0, 5))
+        if width == 0 or (draw(INT(0, 5)) == 0 and wa >= width):
             # (a variable-offset word_select of width 0 is rejected by design: the test suite pins TypeError)
-            off = ["int", draw(st.integers(0, (wa // width - 1) if width else 3))]
+            off = ["int", draw(INT(0, (wa // width - 1) if width else 3))]
         else:
             off = self.var_offset(draw, self.expr(draw, d), 3)
         return ["wsel", a, off, width]
@@ -208,26 +239,28 @@ class ExprGen:
         return ["arr", [self.expr(draw, max(d - 1, 0)) for _ in range(n)], idx]
 
     def pattern(self, draw, w, s):
-        if draw(st.booleans()):
-            body = "".join(draw(st.lists(st.sampled_from("01-"), min_size=w, max_size=w)))
-            if draw(st.integers(0, 3)) == 0 and w > 1:
-                k = draw(st.integers(1, w - 1))
-                body = body[:k] + draw(st.sampled_from([" ", "\t", "  "])) + body[k:]
+        if draw(BOOL):
+            body = "".join(PICK(draw, "01-") for _ in range(w))
+            if draw(INT(0, 3)) == 0 and w > 1:
+                k = draw(INT(1, w - 1))
+                body = body[:k] + PICK(draw, ([" ", "\t", "  "])) + body[k:]
             return body
         # integers, some of them not representable in the matched shape
-        return draw(st.one_of(value_of_shape(w, s) if w else st.just(0), st.integers(-(1 << w) - 1, (1 << w) + 1)))
+        if draw(BOOL):
+            return draw(value_of_shape(w, s))
+        return draw(INT(-(1 << w) - 1, (1 << w) + 1))
 
     def p_match(self, draw, d):
         a = self.limit(draw, self.expr(draw, d), 8)
         w, s = self.shape(a)
-        n = draw(st.integers(0, 3))
+        n = draw(INT(0, 3))
         return ["match", a, [self.pattern(draw, w, s) for _ in range(n)]]
 
 
 @st.composite
 def expr_case(draw, depth=3, maxw=6, nsig=(1, 3), cap=64):
-    n = draw(st.integers(*nsig))
-    env = [draw(shapes(maxw=maxw)) for _ in range(n)]
+    n = draw(INT(*nsig))
+    env = [draw_shape(draw, maxw) for _ in range(n)]
     g = ExprGen(env, cap=cap)
     e = g.expr(draw, depth)
     return {"env": env, "expr": e}
